@@ -31,6 +31,9 @@ class C18(Prop):
         # transcription pins (DESIGN II.7, weakest tie): the token text of the hand-transcribed files is the one the model was made from
         "RxModel.GenTie.PinsCells": [],
         "RxModel.GenTie.SubjectThreads": [],
+        # BehaviorSubject over Subject and over SubjectThreads: ONE generic impl, both instantiations = the same model
+        # (seed C18-10 gave the thread-safe instantiation an actual_subscribe of its own)
+        "RxModel.GenTie.Behavior": [], "RxModel.GenTie.BehaviorThreads": [],
         "RxModel.GenTie.MergeAllThreads": [],
         "RxModel.GenTie.SubscriberThreads": [],
         "RxModel.GenTie.MergeThreads": ['merge'],
@@ -65,7 +68,7 @@ class C18(Prop):
             evs = tg.events(rng, rng.randint(3, 12), hot=(src[0] == "hot"),
                             mode="mixed" if i % 2 else "fifo", unsub_p=0.05)
             base.append(Case("time", "local", [("pipe", [pipe])], evs, {"kind": "time"}))
-        for modname, cap in (("c05", 3000), ("c15", 3000), ("c11", 3000), ("c06", 3000), ("c20", 2000)):
+        for modname, cap in (("c05", 3000), ("c15", 3000), ("c11", 3000), ("c06", 3000), ("c20", 2000), ("c12", 3000)):
             try:
                 mod = importlib.import_module(f"vlib.props.{modname}")
                 # suites that exist for the thread-safe flavour only (lock traces, preemption injection) have no twin
